@@ -243,19 +243,23 @@ theorem ansi_order_float_safe (i : Nat) (hb : 8 * i + 1 < 2 ^ 50) (y : ℝ)
     (hy : |y - (√((8 * i + 1 : ℕ) : ℝ) - 1) / 2| ≤ √((8 * i + 1 : ℕ) : ℝ) / 2 ^ 52) :
     ⌊y⌋₊ = (ansiToZernike i).1 := ansiN_float_safe i hb y hexact hy
 
-/-- `zernike_to_noll` starts its search at `int(((n + 0.5)**2 + 1) / 2) + 1`: the real value is `n(n+1)/2 + 5/8`, so every `y`
-within `3/8` of it gives the start `n(n+1)/2 + 1` of the model's `zernikeToNoll` (the first Noll index of row `n`) -/
-theorem tonoll_window_start_float_robust (n : Nat) (y : ℝ)
-    (hy : |y - (((n : ℝ) + 1 / 2) ^ 2 + 1) / 2| < 3 / 8) : ⌊y⌋₊ + 1 = n * (n + 1) / 2 + 1 := by
-  have ht := two_tri n
-  have hT : n * (n + 1) / 2 = tri n := rfl
-  rw [hT]
-  have htr : 2 * (tri n : ℝ) = (n : ℝ) * (n + 1) := by exact_mod_cast ht
-  obtain ⟨h1, h2⟩ := abs_lt.mp hy
-  have hy0 : 0 ≤ y := by nlinarith [sq_nonneg ((n : ℝ) + 1 / 2)]
-  congr 1
-  rw [Nat.floor_eq_iff hy0]
-  constructor <;> nlinarith
+/-- `zernike_to_noll` starts its search at `int(((n + 0.5)**2 + 1) / 2) + 1`: the real value is `n(n+1)/2 + 5/8`, so for every
+`y` within `3/8` of it the search of the code (same window length) is the model's `zernikeToNoll`, whose start is the first Noll
+index `n(n+1)/2 + 1` of row `n` -/
+theorem tonoll_window_start_float_robust (n : Nat) (m : Int) (y : ℝ)
+    (hy : |y - (((n : ℝ) + 1 / 2) ^ 2 + 1) / 2| < 3 / 8) :
+    searchNoll n m (⌊y⌋₊ + 1) ((n + 1) * (n + 2) / 2 + 1) = zernikeToNoll n m := by
+  have key : ⌊y⌋₊ = n * (n + 1) / 2 := by
+    have ht := two_tri n
+    have hT : n * (n + 1) / 2 = tri n := rfl
+    rw [hT]
+    have htr : 2 * (tri n : ℝ) = (n : ℝ) * (n + 1) := by exact_mod_cast ht
+    obtain ⟨h1, h2⟩ := abs_lt.mp hy
+    have hy0 : 0 ≤ y := by nlinarith [sq_nonneg ((n : ℝ) + 1 / 2)]
+    rw [Nat.floor_eq_iff hy0]
+    constructor <;> nlinarith
+  rw [key]
+  rfl
 
 /-- the hypotheses are satisfiable: the exact values themselves (`i = 3`: `√5 + ½`; `√25 = 5`, `y = 2`) -/
 example : |(√((2 * 3 - 1 : ℕ) : ℝ) + 1 / 2) - (√((2 * 3 - 1 : ℕ) : ℝ) + 1 / 2)| ≤ (√((2 * 3 - 1 : ℕ) : ℝ) + 1 / 2) / 2 ^ 52 := by
